@@ -226,6 +226,38 @@ def tables(verbose=False):
     return T
 
 
+_SEC = {}
+
+
+def section_tables(nsec=41):
+    """[(da,db)] -> (T[sec], S[sec]) arrays of shape (nsec, 30, 30): exact tables over the x-sections
+    [2k/nsec-1, 2(k+1)/nsec-1] used by the conical-panel kernels, with conditioning scales."""
+    if nsec in _SEC:
+        return _SEC[nsec]
+    from .. import build
+    path = os.path.join(build.CACHE, 'bardell_sections_%d_v1.pkl' % nsec)
+    if os.path.exists(path):
+        try:
+            _SEC[nsec] = pickle.load(open(path, 'rb'))
+            return _SEC[nsec]
+        except Exception:
+            pass
+    out = {}
+    for da in range(3):
+        for db in range(3):
+            Ts, Ss = [], []
+            for k in range(nsec):
+                T, S = table(da, db, Fr(2 * k, nsec) - 1, Fr(2 * (k + 1), nsec) - 1)
+                Ts.append(T); Ss.append(S)
+            out[(da, db)] = (np.array(Ts), np.array(Ss))
+    os.makedirs(build.CACHE, exist_ok=True)
+    tmp = path + '.tmp%d' % os.getpid()
+    pickle.dump(out, open(tmp, 'wb'))
+    os.replace(tmp, path)
+    _SEC[nsec] = out
+    return out
+
+
 def flagvec(t1, r1, t2, r2, n=NMAX):
     v = np.ones(n)
     v[:4] = [t1, r1, t2, r2][:min(4, n)]
